@@ -96,6 +96,8 @@ func (s Shape) raw(host string) []byte {
 
 type shapeOut struct {
 	Shape     string `json:"shape"`
+	Name      string `json:"schemaName"`
+	Other     string `json:"otherSchemaName"`
 	BaseFwd   bool   `json:"baseForwarded"`
 	BaseCode  int    `json:"baseStatus"`
 	Sent      int    `json:"sent"`
@@ -124,17 +126,24 @@ func runShapes(c *rig.Ctx, cs Case) *failure {
 		g := e2e.New(e2e.Config{Authenticator: e2e.TokenAuthenticator(map[string]user.Info{
 			"tok": &user.DefaultInfo{Name: "alice", Groups: []string{"system:authenticated"}}})})
 		defer g.Close()
-		add := func(host string, qps, burst int) bool {
+		add := func(host string, qps, burst int, name, other string) bool {
+			if name == "" {
+				name = schemaName
+			}
 			uc := e2e.Cluster(host, up.URL())
-			uc.Spec.DispatchPolicies[0].FlowControlSchemaName = schemaName
-			uc.Spec.FlowControl = proxyv1alpha1.FlowControl{Schemas: []proxyv1alpha1.FlowControlSchema{schema(schemaName, qps, burst, "")}}
+			uc.Spec.DispatchPolicies[0].FlowControlSchemaName = name
+			uc.Spec.FlowControl = proxyv1alpha1.FlowControl{Schemas: []proxyv1alpha1.FlowControlSchema{schema(name, qps, burst, "")}}
+			if other != "" && other != name {
+				// a wide bucket under a name that collides with the observed one under some normalisation, synced after it
+				uc.Spec.FlowControl.Schemas = append(uc.Spec.FlowControl.Schemas, schema(other, 100000, 100000, ""))
+			}
 			if _, err := g.AddCluster(uc, e2e.AlwaysReady, true); err != nil {
 				rigErr = "AddCluster: " + err.Error()
 				return false
 			}
 			return true
 		}
-		if !add("c06wide.local", 100000, 100000) {
+		if !add("c06wide.local", 100000, 100000, cs.SchemaName, "") {
 			return
 		}
 		shapeSeq := 0
@@ -171,7 +180,13 @@ func runShapes(c *rig.Ctx, cs Case) *failure {
 			shapeSeq++
 			host := fmt.Sprintf("c06s%d.local", shapeSeq)
 			so.T0 = mono() // before the bucket exists
-			if !add(host, cs.QPS, cs.Burst) {
+			name, other := cs.SchemaName, cs.OtherName
+			if len(cs.Names) >= 2 {
+				k := (shapeSeq - 1) % (len(cs.Names) / 2)
+				name, other = cs.Names[2*k], cs.Names[2*k+1]
+			}
+			so.Name, so.Other = name, other
+			if !add(host, cs.QPS, cs.Burst, name, other) {
 				return
 			}
 			for i := 0; i < cs.Conc; i++ {
@@ -203,8 +218,8 @@ func runShapes(c *rig.Ctx, cs Case) *failure {
 				return
 			}
 			if !w.Ok {
-				fail = &failure{"judge", "c06.e2e.upper", fmt.Sprintf("request shape %q (%s %s): %d of %d back-to-back requests forwarded in %.3f s under a token bucket (qps=%d, burst=%d), ceil(burst+qps*T) = %d: this kind of request is not charged against the bucket",
-					sh.Name, sh.Method, sh.Target, so.Forwarded, so.Sent, float64(so.T1-so.T0)/1e9, cs.QPS, cs.Burst, w.Bound), so, nil}
+				fail = &failure{"judge", "c06.e2e.upper", fmt.Sprintf("request shape %q (%s %s), policy schema %q (other schema of the cluster: %q): %d of %d back-to-back requests forwarded in %.3f s under a token bucket (qps=%d, burst=%d), ceil(burst+qps*T) = %d: this request is not charged against its bucket",
+					sh.Name, sh.Method, sh.Target, name, other, so.Forwarded, so.Sent, float64(so.T1-so.T0)/1e9, cs.QPS, cs.Burst, w.Bound), so, nil}
 				return
 			}
 			owed := cs.Burst
